@@ -1,5 +1,6 @@
 import GeffModel.Proto
 import GeffModel.TrackMate
+import GeffModel.TrackMateSpec
 open Lean Geff Geff.Proto Geff.TrackMate
 
 def optStrJ : Option String → Json
@@ -108,8 +109,17 @@ def handle (j : Json) : Except String Json := do
   let d ← getDoc j
   let ds ← (← j.getObjVal? "ds").getBool?
   let dt ← (← j.getObjVal? "dt").getBool?
+  -- the specification vocabulary of GeffProps.C16 evaluated on the document (S-oracle side)
+  let ids := d.spots.map spotId
+  let spec := Json.mkObj [
+    ("wf", Json.bool (wfB d)), ("meta_ok", Json.bool (metaOkB d)), ("connected", Json.bool (tracksConnectedB d)),
+    ("keep", Json.arr ((ids.filter (keepSpot d ds dt)).map (fun n => Json.str (toString n))).toArray),
+    ("track_id", Json.arr (ids.map (fun n => match trackIdOf d n with
+      | some v => valJson v
+      | none => Json.null)).toArray),
+    ("lone", Json.arr (ids.map (fun n => Json.bool (lone d n))).toArray)]
   match convert d ds dt with
-  | .exc e => return Json.mkObj [("exc", Json.str e)]
-  | .ok o => return Json.mkObj [("ok", outJson o)]
+  | .exc e => return Json.mkObj [("exc", Json.str e), ("spec", spec)]
+  | .ok o => return Json.mkObj [("ok", outJson o), ("spec", spec)]
 
 def main : IO Unit := Proto.run handle
